@@ -86,6 +86,9 @@ def _key_sets(fn):
                 out.add(c.value)
             elif isinstance(c, (ast.Set, ast.List, ast.Tuple)):
                 out |= {e.value for e in c.elts if isinstance(e, ast.Constant) and _looks_like_key(e.value)}
+        if isinstance(n, ast.Compare) and len(n.ops) == 1 and isinstance(n.ops[0], (ast.In, ast.NotIn)) and isinstance(n.left, ast.Constant) \
+                and _looks_like_key(n.left.value):
+            out.add(n.left.value)  # `"KEY" in child`: what a loop over the key names reads as once the loader has unrolled it
         if isinstance(n, ast.For) and isinstance(n.target, ast.Name) and isinstance(n.iter, (ast.List, ast.Tuple, ast.Set)):
             out |= {e.value for e in n.iter.elts if isinstance(e, ast.Constant) and _looks_like_key(e.value)}
     return out
@@ -308,10 +311,32 @@ def _n4_n5_n6(ctx, R):
     R.floor("watched-key sites (N6)", 8)
 
 
-def _branches_by_class(fn, var_names=("element", "parent")):
+def _with_private_helpers(P, fn):
+    """fn and the private helpers (same class, same module) it reaches through calls, recursive and generator helpers included:
+    a traversal may be split into a walker and the function that consumes it"""
+    seen, todo = [fn], [fn]
+    while todo:
+        g = todo.pop()
+        for c in walk_local(g.node):
+            if not isinstance(c, ast.Call):
+                continue
+            h = None
+            if isinstance(c.func, ast.Attribute) and c.func.attr.startswith("_") and not c.func.attr.startswith("__") and isinstance(c.func.value, ast.Name) \
+                    and g.cls is not None and c.func.value.id in ("self", "cls", g.cls.name):
+                h = g.cls.methods.get(c.func.attr)
+            elif isinstance(c.func, ast.Name) and c.func.id.startswith("_") and c.func.id in g.module.functions:
+                h = g.module.functions[c.func.id]
+            if h is not None and all(h is not x for x in seen):
+                seen.append(h)
+                todo.append(h)
+    return seen
+
+
+def _branches_by_class(fn, var_names=("element", "parent"), P=None):
     """{class name: (tested variable, [body statements])} for `isinstance(<var>, C)` branches (tuple of classes expands)"""
     out = {}
-    for n in walk_local(fn.node):
+    fns = _with_private_helpers(P, fn) if P is not None else [fn]
+    for n in (x for g in fns for x in walk_local(g.node)):
         if isinstance(n, ast.If) and isinstance(n.test, ast.Call) and norm(n.test.func) == "isinstance" and len(n.test.args) == 2:
             c = n.test.args[1]
             names = [norm(x) for x in c.elts] if isinstance(c, ast.Tuple) else [norm(c)]
@@ -461,7 +486,7 @@ def _n7(ctx, R):
     for f, var in trav:
         if f is None:
             raise AnalysisError("anchor vanished: a containment traversal of the namespace plugin")
-        br = _branches_by_class(f)
+        br = _branches_by_class(f, P=P)
         for pc, rels in SCHEMA.items():
             used = _attrs_used(br.get(pc, (var, []))[1], br.get(pc, (var, []))[0]) & all_attrs
             want = {a for a, _ in rels}
